@@ -53,8 +53,16 @@ def roots(ctx, m):
             # constructing the environment and the agents is part of "a simulation as a function of seed and parameters"
             if f.name == "new" and f.pub and ("::agents::" in f.path or (f.impl_adt or "").split("::")[-1] in ("Env", "MarketEnv")):
                 out.append(f)
+        # compositions through the derive macros: the generated update bodies live in the deriving crate (the workspace's own
+        # derive sites are in the integration-test crate), and are simulation code like any hand-written update
         if f.crate.name == "bourse":
             if f.name in ("step", "new") and (f.impl_adt or "").split("::")[-1] in ("StepEnv", "StepEnvNumpy"):
+                out.append(f)
+    # compositions through the derive macros: the generated update bodies live in the deriving crate (the workspace's own
+    # derive sites are in the integration-test crate) and are simulation code like any hand-written update
+    for tc in ctx.prog.tests.values():
+        for f in tc.fns:
+            if f.name == "update" and (f.impl_trait or "").split("::")[-1] in ("AgentSet", "MarketAgentSet"):
                 out.append(f)
     return out
 
@@ -62,6 +70,9 @@ def roots(ctx, m):
 def run(ctx):
     m = Model(ctx)
     rs = roots(ctx, m)
+    derived = [f for f in rs if f.crate.name not in ("bourse_de", "bourse")]
+    ctx.check(len(derived) >= 2, "roots", "derived", "-", "%d macro-generated AgentSet / MarketAgentSet update bodies are simulation roots (%s)" % (len(derived), ", ".join(sorted({f.crate.name for f in derived}))),
+              "no macro-generated update body found among the extracted crates (derive sites of tests/test_macros.rs expected)")
     ctx.check(len(rs) >= 14, "roots", "count", "-", "%d simulation roots (runners, steps, %d update impls, helpers, PyO3 step/new)" % (
         len(rs), sum(1 for f in rs if f.name == "update")), "only %d simulation roots found" % len(rs))
     reach = m.w.reachable(rs)
